@@ -684,6 +684,10 @@ func (e *Env) call(x *CE, pos bool) CV {
 		// len(s) and len(s) - 1
 		sv, sep := argv(0), e.coerce(argv(1), "B")
 		return g.cv(e.joinTerm(sv, "(len_ "+sv.S+")", sep.S), "B", nil)
+	case "joinedN":
+		// joinedN(s, n, sep): the first n elements of the []string s joined by sep
+		sv, n, sep := argv(0), argv(1), e.coerce(argv(2), "B")
+		return g.cv(e.joinTerm(sv, n.S, sep.S), "B", nil)
 	case "fresh":
 		a := argv(0)
 		a0 := g.alloc(e.old)
